@@ -54,6 +54,7 @@ func catchStr(f func() string) (out string) {
 }
 
 func runT(t *testing.T, sc tScenario, prefix []int) (x tExec) {
+	journal("T %s schedule %v", sc.Name, prefix)
 	x.Results = map[string]string{}
 	res := inBubble(t, func(b *bubble) {
 		threads, finish := sc.Build(b)
